@@ -83,7 +83,9 @@ def build_all(variants=("plain",)):
             bg = os.path.join(outdir, "adf_bitm_g.o")
             run(["gcc", "-O0", "-g", "-w", "-c", GUARD] + inc + [os.path.join(REPO, "src", "adf_bitm.c"), "-o", bg])
             run(["objcopy", "--globalize-symbol=nBlock2bitmapSize", bg])
-            lobjs = [o for o in objs if not o.endswith("adf_bitm.o")] + [bg]
+            uo = os.path.join(outdir, "unadf_lib.o")
+            run(["gcc", "-O1", "-g", "-w", "-c", "-Dmain=unadf_main", GUARD] + inc + [os.path.join(REPO, "examples", "unadf.c"), "-o", uo])
+            lobjs = [o for o in objs if not o.endswith("adf_bitm.o")] + [bg, uo]
             run(["gcc", "-O1", "-g", "-w", GUARD] + inc + ["-I" + os.path.join(REPO, "src", "generic"),
                 os.path.join(VERIF, "harness", "leafh.c")] + lobjs + ["-o", os.path.join(outdir, "leafh")])
             run(["gcc", "-O1", "-g", "-w", GUARD] + inc + [os.path.join(REPO, "examples", "unadf.c")] + objs +
